@@ -391,6 +391,34 @@ class MO {
   NTR h;
 };
 
+// copy-only non relocatable element: no move operations at all, "moving" it is a copy that can throw
+class CO {
+ public:
+  CO() : h() {}
+  explicit CO(int v) : h(v) {}
+  CO(const CO &o) : h(o.h) {}
+  CO &operator=(const CO &o) {
+    h = o.h;
+    return *this;
+  }
+  int val() const { return h.val(); }
+  bool is_null() const { return h.is_null(); }
+  bool magic_ok() const { return h.magic_ok(); }
+  uint32_t id() const { return h.id(); }
+  friend bool operator==(const CO &a, const CO &b) { return a.val() == b.val(); }
+  friend bool operator!=(const CO &a, const CO &b) { return a.val() != b.val(); }
+#if __cplusplus >= 202002L
+  friend std::strong_ordering operator<=>(const CO &a, const CO &b) { return a.val() <=> b.val(); }
+#else
+  friend bool operator<(const CO &a, const CO &b) { return a.val() < b.val(); }
+  friend bool operator>(const CO &a, const CO &b) { return a.val() > b.val(); }
+  friend bool operator<=(const CO &a, const CO &b) { return a.val() <= b.val(); }
+  friend bool operator>=(const CO &a, const CO &b) { return a.val() >= b.val(); }
+#endif
+ private:
+  NTR h;
+};
+
 // ---- TC<Bytes, Align>: trivially copyable, non trivial (user-provided constructors) -------------
 template <int B, int A>
 struct TC {
